@@ -16,6 +16,7 @@ import (
 	"github.com/golang/protobuf/proto"
 
 	"github.com/xuperchain/xupercore/bcs/ledger/xledger/ledger"
+	txn "github.com/xuperchain/xupercore/bcs/ledger/xledger/tx"
 	pb "github.com/xuperchain/xupercore/bcs/ledger/xledger/xldgpb"
 	xconf "github.com/xuperchain/xupercore/kernel/common/xconfig"
 	"github.com/xuperchain/xupercore/kernel/mock"
@@ -57,6 +58,79 @@ func getLedger() *ledger.Ledger {
 	}
 	theLedger = l
 	return l
+}
+
+// knownLedger is a second ledger on which honest blocks are really confirmed before tampered copies of them are
+// verified (vb ... known=1): whatever the ledger remembers about a block id must not stand in for the body and
+// signature checks.
+var knownLedger *ledger.Ledger
+var knownSeq int
+
+func getKnownLedger() *ledger.Ledger {
+	if knownLedger != nil {
+		return knownLedger
+	}
+	getLedger()
+	econf, err := mock.NewEnvConfForTest()
+	if err != nil {
+		xvlib.Die("env conf: %v", err)
+	}
+	lctx, err := ledger.NewLedgerCtx(econf, "xuper")
+	if err != nil {
+		xvlib.Die("ledger ctx: %v", err)
+	}
+	ec := *ledgerEnv
+	ec.ChainDir = "chain-known"
+	lctx.EnvCfg = &ec
+	os.RemoveAll(filepath.Join(ec.RootPath, ec.DataDir, ec.ChainDir))
+	l, err := ledger.CreateLedger(lctx, genesisConf)
+	if err != nil {
+		xvlib.Die("create known ledger: %v", err)
+	}
+	rootTx, err := txn.GenerateRootTx(genesisConf)
+	if err != nil {
+		xvlib.Die("root tx: %v", err)
+	}
+	rb, err := l.FormatRootBlock([]*pb.Transaction{rootTx})
+	if err != nil {
+		xvlib.Die("root block: %v", err)
+	}
+	if st := l.ConfirmBlock(rb, true); !st.Succ {
+		xvlib.Die("confirm root block: %v", st.Error)
+	}
+	knownLedger = l
+	return l
+}
+
+// formatKnown formats the base block on top of the known ledger's tip and confirms it there.
+var knownErr string
+
+func formatKnown(p base) (*pb.InternalBlock, bool) {
+	l := getKnownLedger()
+	knownSeq++
+	var qc *pb.QuorumCert
+	if p.qc >= 0 {
+		qc = stdJustify(p.qc)
+	}
+	var failed map[string]string
+	if p.ft > 0 {
+		failed = map[string]string{}
+		for i := 0; i < p.ft; i++ {
+			failed["f"+strconv.Itoa(i)] = "err" + strconv.Itoa(i)
+		}
+	}
+	a := acct(p.k)
+	txs := mkTxs(p.n, "k"+strconv.Itoa(knownSeq)+"-")
+	meta := l.GetMeta()
+	b, err := l.FormatMinerBlock(txs, []byte(a.Address), a.Pri, 1700000000+int64(knownSeq), 3, 7, meta.TipBlockid, p.tb, big.NewInt(0), qc, failed, meta.TrunkHeight+1)
+	if err != nil {
+		return nil, false
+	}
+	if st := l.ConfirmBlock(proto.Clone(b).(*pb.InternalBlock), false); !st.Succ {
+		knownErr = fmt.Sprint(st.Error)
+		return nil, false
+	}
+	return b, true
 }
 
 var accts = map[int]*xvlib.Account{}
@@ -629,6 +703,16 @@ func execVb(line string, oracle bool) string {
 	if err != nil {
 		return "format-error"
 	}
+	vl := getLedger()
+	if m["known"] == "1" && p.n >= 1 && p.ph == 1 && p.d == 0 {
+		// the honest block is confirmed first; the copy that is verified carries the same header
+		kb, ok := formatKnown(p)
+		if !ok {
+			out.Violate(xvlib.Violation{Key: "formatted-block-not-confirmed", What: "a block formatted by FormatMinerBlock on the ledger's tip is refused by ConfirmBlock", Ops: []string{line}, Impl: []string{knownErr}})
+			return "format-error"
+		}
+		b, vl = kb, getKnownLedger()
+	}
 	orig := b
 	b = proto.Clone(b).(*pb.InternalBlock)
 	class := mutate(b, p, m["m"])
@@ -638,7 +722,7 @@ func execVb(line string, oracle bool) string {
 	if class == "reject" && proto.Equal(orig, b) {
 		class = "noop" // e.g. swapping two equal transactions: nothing changed, nothing to reject
 	}
-	ok, _ := getLedger().VerifyBlock(b, "xv")
+	ok, _ := vl.VerifyBlock(b, "xv")
 	res := "reject"
 	if ok {
 		res = "accept"
@@ -851,6 +935,10 @@ func genC08(tier string, rng *xvlib.Rng, run func(string, bool)) {
 			for _, m := range mutationsFor(p, rng, n <= 9 || thorough) {
 				l := fmt.Sprintf("vb %s m=%s", p, m)
 				run(l, m != "none")
+				if p.d == 0 && (c == 0 || rng.Intn(3) == 0) {
+					// the same mutation of a copy of a block this ledger has already confirmed
+					run(l+" known=1", m != "none")
+				}
 				if nb < 2 && strings.HasPrefix(m, "txdup") {
 					out.Sample(map[string]string{"op": l, "impl": execC08(l, false)})
 					nb++
